@@ -31,6 +31,12 @@ def cases(tier, seed):
                     for k in range(d):
                         cs.append({'scen': 'wf_step', 's': dict(s, k=k)})
                     continue
+                if name == 'set_core_ndim':
+                    # a core of another dimensionality whose outer dims fit the ranks (e.g. a core of x.to_ttm() given to x): accepted only if the invariant survives
+                    for k in sorted(set([0, d - 1])):
+                        for nd in (2, 3, 4, 5):
+                            cs.append({'scen': 'wf_step', 's': dict(s, k=k, ndim=nd, B=min(s['B'], 3))})
+                    continue
                 if name == 'set_core_free':
                     # arbitrary new core (all its dims symbolic) at every index incl. negative and out-of-range ones: accepted only if the invariant survives
                     for k in sorted(set([-d - 1, -d, -1, 0, d - 1, d])):
